@@ -8,7 +8,7 @@ LEVEL_TEXT = ("Exception-freedom and integer-size obligations of every function 
               "NOT proved; the bounded composition run (foreign exceptions while building random operation trees) stands in for them.")
 TECHNIQUE = "raises-clause and integer-size obligations on the pyvc paths of the real rewriters and the concrete BV backend; bounded composition stand-in"
 RULE = _C01.RULE
-FUNCTIONS = _C01.FUNCTIONS + ["backend_concrete.bv.BVV.* (all operators)", "backend_concrete.bv.{Extract,Concat,ZeroExt,SignExt,Reverse,RotateLeft,RotateRight,SDiv,SMod,LShR,If}"]
+FUNCTIONS = _C01.FUNCTIONS + ["backend_concrete.strings.* (all 10 operations, on symbolic strings of length <= 3)", "backend_concrete.bv.BVV.* (all operators)", "backend_concrete.bv.{Extract,Concat,ZeroExt,SignExt,Reverse,RotateLeft,RotateRight,SDiv,SMod,LShR,If}"]
 TRUSTED = _C01.TRUSTED
 ASSUMPTIONS = _C01.ASSUMPTIONS + ["float and string folding (fpToUBV assertion, regex metacharacters in StrPrefixOf, struct.pack overflow) are not under contract: the boundary-value runs of C02/C03 are repeated here for crashes only (bounded)",
                                   "termination is not verified"]
@@ -34,4 +34,9 @@ def _crash_tasks(tier):
 
 
 def tasks(tier, seed=0):
-    return _C01._simp_tasks(tier) + _C01._cbv_tasks(tier) + _C01._compose_tasks(tier, seed + 17) + _crash_tasks(tier)
+    from vf.common import task
+    from vf.contracts import strfold
+    # the string folding code on symbolic strings (C03): a foreign exception on a feasible path is the failed clause `<op>/raises`
+    strs = [task("vf.contracts.strfold", "ob_fold", f"strings.{op}/folded-equals-solved", ["C03", "C04"], replay="vf.contracts.strfold:replay", op=op, tier=tier,
+                 maxlen=2 if tier == "quick" else 3) for op in strfold.OPS]
+    return _C01._simp_tasks(tier) + _C01._cbv_tasks(tier) + _C01._compose_tasks(tier, seed + 17) + strs + _crash_tasks(tier)
